@@ -24,9 +24,9 @@ from pathlib import Path
 
 FUNCS = ["updateHeightAndSlope", "rotr", "rotl", "shiftr", "shiftl", "rebal"]
 HEADERS = {"Map": "include/nstd/Map.hpp", "Multi": "include/nstd/MultiMap.hpp"}
-FIELD_TYPES = {"Item*": "ptr", "usize": "usize", "ssize": "ssize", "T": "key", "Iterator": "ptr"}
+FIELD_TYPES = {"Item*": "ptr", "usize": "usize", "ssize": "ssize", "T": "key", "Iterator": "ptr", "V": "val"}
 HEAP_FIELDS = {"parent": "ptr", "left": "ptr", "right": "ptr", "height": "usize", "slope": "ssize",
-               "key": "key", "next": "ptr", "prev": "ptr"}   # what Heap.lean offers
+               "key": "key", "next": "ptr", "prev": "ptr", "value": "val"}   # what Heap.lean offers
 
 
 class Refuse(Exception):
@@ -409,6 +409,11 @@ class Tr:
             if not self.in_item and x == "_end":
                 return "h.endItem", "ptr"             # the Iterator whose item is &endItem
             raise Refuse(f"{self.fn}: unknown name `{x}`")
+        if k == "deref":
+            x = self.strip(e[1])
+            if x[0] != "id" or env.get(x[1]) != "cellptr":
+                raise Refuse(f"{self.fn}: `*` applied to something that is not an Item** local")
+            return f"(h.get {lean_name(x[1])})", "ptr"
         if k == "endptr":
             if self.in_item:
                 raise Refuse(f"{self.fn}: &endItem inside Item")
@@ -639,7 +644,7 @@ class Tr:
         raise Refuse(f"{self.fn}: statement form `{k}` is outside the translated subset")
 
 
-LEAN_TY = {"ptr": "Nat", "usize": "Nat", "ssize": "Int", "key": "Int", "cell": "Cell"}
+LEAN_TY = {"ptr": "Nat", "usize": "Nat", "ssize": "Int", "key": "Int", "cell": "Cell", "val": "Int", "cellptr": "Cell"}
 
 
 def always_exits(s):
@@ -696,7 +701,7 @@ class Tr2(Tr):
 
     # -- results
     def res_type(self):
-        parts = ([] if self.pure else ["Heap"]) + ({"void": [], "ptr": ["Nat"], "usize": ["Nat"], "ptrtag": ["Nat × Nat"]}[self.ret]) + (["Nat"] if self.counting else [])
+        parts = ([] if self.pure else ["Heap"]) + ({"void": [], "ptr": ["Nat"], "usize": ["Nat"], "ptrtag": ["Nat × Nat"], "desc": ["Nat × Nat × Cell"]}[self.ret]) + (["Nat"] if self.counting else [])
         t = " × ".join(parts) if parts else "Unit"
         return f"Option ({t})" if self.fuel else t
 
@@ -771,6 +776,12 @@ class Tr2(Tr):
                 return self.result(None, ind)
             if self.ret == "void":
                 raise Refuse(f"{self.fn}: return with a value in a void function")
+            if self.ret == "desc":
+                t, ty = self.rv(s[1], env, "ptr")
+                cells = [n for n, tt in env.items() if tt == "cellptr"]
+                if ty != "ptr" or len(cells) != 1:
+                    raise Refuse(f"{self.fn}: return in the descent")
+                return self.result(f"0, {t}, {lean_name(cells[0])}", ind)
             t, ty = self.rv(s[1], env, self.ret)
             if ty != self.ret:
                 raise Refuse(f"{self.fn}: returns {ty}, declared {self.ret}")
@@ -778,6 +789,10 @@ class Tr2(Tr):
         if k == "goto":
             if self.exits is None or s[1] not in self.exits:
                 raise Refuse(f"{self.fn}: goto {s[1]}")
+            if self.exits[s[1]] == "continue":
+                if lp is None:
+                    raise Refuse(f"{self.fn}: goto {s[1]} outside the loop it restarts")
+                return lp["cont"](env, ind)
             return self.exits[s[1]](env, ind)
         if k == "exit":
             return s[1](env, ind)
@@ -840,6 +855,8 @@ class Tr2(Tr):
             if e[0] == "assign":
                 rhs = self.strip(e[2])
                 lhs = self.strip(e[1])
+                if lhs[0] == "id" and env.get(lhs[1]) == "cellptr":
+                    return f"{ind}let {lean_name(lhs[1])} : Cell := {self.lvaddr(rhs, env)}\n" + self.stmts2(rest, env, ind, lp)
                 if lhs[0] == "deref":
                     x = self.strip(lhs[1])
                     if x[0] != "id" or env.get(x[1]) != "cellptr":
@@ -923,10 +940,13 @@ class Tr2(Tr):
             if init is not None:
                 if init[0] == "decl":
                     _, ty, nm, ini = init
-                    if nm in env or ty not in FIELD_TYPES or ty == "T" or ini is None:
+                    if nm in env or ty not in FIELD_TYPES or ty in ("T", "V"):
                         raise Refuse(f"{self.fn}: for-init `{ty} {nm}`")
                     lt = FIELD_TYPES[ty]
-                    t, tt = self.rv(ini, env, lt)
+                    if ini is None:
+                        t, tt = "0", lt
+                    else:
+                        t, tt = self.rv(ini, env, lt)
                     if tt != lt:
                         raise Refuse(f"{self.fn}: for-init `{nm}` of type {ty} initialised with {tt}")
                     pre = f"{ind}let {lean_name(nm)} : {LEAN_TY[lt]} := {t}\n"
@@ -949,6 +969,15 @@ class Tr2(Tr):
             lp = {"cont": cont, "brk": outer_rest}
             if cond is None:
                 inner = self.stmts2([body], env2, "    ", lp)
+            elif self.strip(cond)[0] == "assign":
+                # `for(...; (x = e); ...)`: store, then test the stored pointer
+                cc = self.strip(cond)
+                prel, env3, val = self.assign(cc[1], cc[2], env2, "    ")
+                lhs = self.strip(cc[1])
+                if val is None or lhs[0] != "id" or env2.get(lhs[1]) != "ptr":
+                    raise Refuse(f"{self.fn}: this assignment cannot be used as a loop condition")
+                inner = (prel + f"    if ({val} ≠ 0) then\n" + self.stmts2([body], env3, "      ", lp) +
+                         "    else\n" + outer_rest(env3, "      "))
             else:
                 inner = self.ifthen(cond, env2, "    ", lambda i: self.stmts2([body], env2, i, lp), lambda i: outer_rest(env2, i))
         else:
@@ -982,6 +1011,14 @@ def parse_params(fn, text):
         mk = re.fullmatch(r"\s*const\s+T\s*&\s*(\w+)\s*", p)
         if mk:
             params.append(("key", mk.group(1)))
+            continue
+        mv = re.fullmatch(r"\s*const\s+V\s*&\s*(\w+)\s*", p)
+        if mv:
+            params.append(("val", mv.group(1)))
+            continue
+        mc = re.fullmatch(r"\s*Item\s*\*\s*\*\s*(\w+)\s*", p)
+        if mc:
+            params.append(("cellptr", mc.group(1)))
             continue
         if not m:
             raise Refuse(f"{fn}: parameter `{p.strip()}`")
@@ -1106,6 +1143,51 @@ def translate_header(path):
     pre = sorted(pre + hoisted, key=lambda d: d[2])
     asts["insertRebalance"] = (pre + items, [("ptr", "parent")], "void")
     order2.append("insertRebalance")
+    # the descent of the private insert.  Two shapes are understood:
+    #   A  `begin: ... Item* position = *cell; if(!position) { <link the new item> } else { compare; cell = ...; goto begin; }`
+    #   B  `for(Item* position; (position = *cell); parent = position) { compare; cell = ...; }  <link the new item>`
+    # In both the part that links the new item is cut off (exit `leaf` with the cell and the parent reached).
+    mpar = re.search(r"Iterator\s+insert\s*\(([^)]*Item\s*\*\*[^)]*)\)\s*\{", src)
+    iparams = parse_params("insertDescend", mpar.group(1))
+    mb = re.search(r"\bbegin\s*:", ibody)
+    mnew = re.search(r"\bnew\b", ibody)
+    if mb and (not mnew or mb.start() < mnew.start()):
+        rest_txt = ibody[mb.end():]
+        mi = re.search(r"if\s*\(\s*!\s*position\s*\)\s*\{", rest_txt)
+        if not mi:
+            raise Refuse("insertDescend: `if(!position) {` not found behind `begin:`")
+        bend = balanced(rest_txt, mi.end() - 1)
+        cut = rest_txt[:mi.end()] + " goto insertLeaf; }" + rest_txt[bend:]
+        toks = tokenize(cut)
+        p = P(toks, "insertDescend")
+        body_items = p.block_items()
+        if p.peek() is not None:
+            raise Refuse("insertDescend: trailing tokens")
+        loop = ("for", None, None, [], ("block", body_items))
+        dshape = "goto"
+    else:
+        mf = re.search(r"\bfor\s*\(", ibody)
+        if not mf or (mnew and mf.start() > mnew.start()):
+            raise Refuse("insertDescend: neither the `begin:`/goto shape nor a descending for loop in front of the allocation")
+        pend = balanced(ibody, mf.end() - 1, "(", ")")
+        bstart = ibody.index("{", pend)
+        if ibody[pend:bstart].strip():
+            raise Refuse("insertDescend: the descending for loop has no block body")
+        bend = balanced(ibody, bstart)
+        toks = tokenize(ibody[mf.start():bend])
+        p = P(toks, "insertDescend")
+        loop = p.stmt()
+        if p.peek() is not None or loop[0] != "for":
+            raise Refuse("insertDescend: the extracted fragment is not one for loop")
+        dshape = "for"
+    norm["insertDescend"] = toks
+    loop, hoisted = hoist_loop_locals(loop)
+    if dshape == "for" and loop[1] is not None and loop[1][0] == "decl" and loop[1][3] is None:
+        # `for(Item* position; ...` : the same as a local declared in front of the loop
+        hoisted = hoisted + [("decl", loop[1][1], loop[1][2], None)]
+        loop = ("for", None) + loop[2:]
+    asts["insertDescend"] = (sorted(hoisted, key=lambda d: d[2]) + [loop, ("goto", "insertLeaf")], iparams, "desc")
+    order2.append("insertDescend")
     # the head of remove(it): cell computation, the three trivial cases, the choice of the neighbour
     m = re.search(r"Iterator\s+remove\s*\(\s*const\s+Iterator\s*&\s*(\w+)\s*\)\s*\{", src)
     if not m:
@@ -1152,6 +1234,13 @@ def translate_header(path):
         items, params, ret = asts[fn]
         tr = Tr2(fn, sigs, fields, False, info)
         env = {name: ty for ty, name in params}
+        if fn == "insertDescend":
+            def leaf(env_, ind_):
+                cells = [n for n, tt in env_.items() if tt == "cellptr"]
+                if env_.get("parent") != "ptr" or len(cells) != 1:
+                    raise Refuse("insertDescend: no Item* parent / Item** cell in scope where the new item is linked")
+                return tr.result(f"1, {lean_name('parent')}, {lean_name(cells[0])}", ind_)
+            tr.exits = {"insertLeaf": leaf, "begin": "continue"}
         if fn == "removeHead":
             def mk_exit(tag):
                 def ex(env_, ind_):
